@@ -139,6 +139,14 @@ pub fn pool_labels(rep: &sched::Report) -> String {
                     }
                 }
             }
+            "spurious" => {
+                if let Some(&i) = widx.get(&e.tid) {
+                    if in_wait.get(&e.tid).cloned().unwrap_or(false) {
+                        in_wait.insert(e.tid, false);
+                        emit(&mut out, e.t, format!("W{}", i), &mut last_t);
+                    }
+                }
+            }
             _ => {}
         }
     }
@@ -299,6 +307,16 @@ pub fn whole_labels(rep: &sched::Report) -> String {
                     }
                 }
             }
+            "spurious" => {
+                if in_wait.get(&e.tid).cloned().unwrap_or(false) {
+                    in_wait.insert(e.tid, false);
+                    if let Some(&i) = widx.get(&e.tid) {
+                        emit(&mut out, e.t, format!("pW{}", i), &mut last_t);
+                    } else if let Some(&c) = cons_of.get(&e.tid) {
+                        emit(&mut out, e.t, format!("qS{}", c), &mut last_t);
+                    }
+                }
+            }
             _ => {}
         }
     }
@@ -317,7 +335,7 @@ pub fn run_pool(id: usize, rng: &mut Rng) -> String {
 fn run_kind(id: usize, rng: &mut Rng, pool_view: bool) -> String {
     let burst = rng.chance(1, 4) || (pool_view && rng.chance(1, 2));
     let sc = if burst { gen_burst(rng) } else { ctl_queue::gen(rng) };
-    let cfg = Config { seed: rng.next(), p_timer: *rng.pick(&[0u64, 0, 30, 200]), max_steps: 2_000_000, ..Config::default() };
+    let cfg = Config { seed: rng.next(), p_timer: *rng.pick(&[0u64, 0, 30, 200]), p_spurious: *rng.pick(&[0u64, 0, 0, 40, 200]), max_steps: 2_000_000, ..Config::default() };
     let hist: Arc<StdMutex<Vec<Vec<String>>>> = Arc::new(StdMutex::new(sc.cons.iter().map(|_| vec![]).collect()));
     let h2 = hist.clone();
     let prods = sc.prods.clone();
